@@ -20,7 +20,7 @@ from .ir_bounds import cmp_atom, facts, known_lt, known_le, is_max_term as ir_bo
 def class_n(f):
     """InlineCapacity of the small_vector / small_vector_base a member function belongs to."""
     p = f.pretty or ''
-    for cls, argi in (('gch::detail::small_vector_base<', 1), ('gch::small_vector<', 1)):
+    for cls, argi in (('gch::detail::small_vector_base<', 1), ('gch::small_vector<', 1), ('svcanary::wrong<', 1)):
         k = p.find(cls)
         if k < 0:
             continue
